@@ -1,10 +1,13 @@
 package main
 
 import (
+	"fmt"
+	"net/url"
 	"strings"
 
 	"cuelabs.dev/go/oci/ociregistry"
 	"cuelabs.dev/go/oci/ociregistry/ociref"
+	"cuelabs.dev/go/oci/ociregistry/ociverif"
 )
 
 // C17: reference parsing is a total, exact partition consistent with the validators.
@@ -45,17 +48,27 @@ func c17Line(l string) string {
 		case "host":
 			return b01(ociref.IsValidHost(s))
 		case "repo":
-			return b01(ociref.IsValidRepository(s))
+			v := ociref.IsValidRepository(s)
+			if d := routerDiffers("repo", s, v); d != "" {
+				return d
+			}
+			return b01(v)
 		case "tag":
 			a, b := ociref.IsValidTag(s), ociregistry.IsValidTag(s)
 			if a != b {
 				return "deprecated-alias-differs"
+			}
+			if d := routerDiffers("tag", s, a || ociref.IsValidDigest(s)); d != "" {
+				return d
 			}
 			return b01(a)
 		case "digest":
 			a, b := ociref.IsValidDigest(s), ociregistry.IsValidDigest(s)
 			if a != b {
 				return "deprecated-alias-differs"
+			}
+			if d := routerDiffers("digest", s, a); d != "" {
+				return d
 			}
 			return b01(a)
 		case "parserel":
@@ -82,6 +95,67 @@ func c17Line(l string) string {
 		}
 	}
 	return "bad-op"
+}
+
+// routerDiffers asks the HTTP routing layer about s in every URL position where the answer
+// cannot depend on anything but s, and reports a disagreement with the predicate's answer.
+func routerDiffers(pos, s string, valid bool) string {
+	parse := func(method, path, query string) *ociverif.Request {
+		r, err := ociverif.Parse(method, &url.URL{Path: path, RawQuery: query})
+		if err != nil {
+			return nil
+		}
+		return r
+	}
+	elems := strings.Split(s, "/")
+	switch pos {
+	case "repo":
+		// as the source of a mount: a query parameter, no ambiguity at all (empty = no mount)
+		if s != "" {
+			q := url.Values{"mount": {"sha256:" + strings.Repeat("0", 64)}, "from": {s}}.Encode()
+			r := parse("POST", "/v2/foo/blobs/uploads/", q)
+			if (r != nil && r.Kind == ociverif.ReqBlobMount && r.FromRepo == s) != valid {
+				return "router-differs:mount-from"
+			}
+		}
+		// as the repository of a path, when no element could be taken for a routing word
+		for _, e := range elems {
+			for _, w := range routingWords {
+				if e == w || e == "" {
+					return ""
+				}
+			}
+		}
+		r := parse("GET", "/v2/"+s+"/tags/list", "")
+		if (r != nil && r.Kind == ociverif.ReqTagsList && r.Repo == s) != valid {
+			return "router-differs:repo"
+		}
+		r = parse("GET", "/v2/"+s+"/blobs/sha256:"+strings.Repeat("0", 64), "")
+		if (r != nil && r.Kind == ociverif.ReqBlobGet && r.Repo == s) != valid {
+			return "router-differs:repo-of-blob"
+		}
+	case "tag": // valid = a tag or a digest
+		if len(elems) != 1 || s == "" {
+			return ""
+		}
+		r := parse("GET", "/v2/foo/manifests/"+s, "")
+		if (r != nil && r.Kind == ociverif.ReqManifestGet && (r.Tag == s || r.Digest == s)) != valid {
+			return "router-differs:manifest-reference"
+		}
+	case "digest":
+		if len(elems) != 1 || s == "" || s == "uploads" {
+			return ""
+		}
+		r := parse("GET", "/v2/foo/blobs/"+s, "")
+		if (r != nil && r.Kind == ociverif.ReqBlobGet && r.Digest == s) != valid {
+			return "router-differs:blob-digest"
+		}
+		r = parse("GET", "/v2/foo/referrers/"+s, "")
+		if (r != nil && r.Kind == ociverif.ReqReferrersList && r.Digest == s) != valid {
+			return "router-differs:referrers-digest"
+		}
+	}
+	return ""
 }
 
 func (*c17) Impl(c Case) []string {
@@ -258,6 +332,35 @@ func (*c17) Gen(rng *RNG, tier string) []Case {
 		"a:" + strings.Repeat("t", 128), "a:" + strings.Repeat("t", 129)} {
 		add("ref host "+tok(s), "ref repo "+tok(s), "ref tag "+tok(s), "ref digest "+tok(s), "ref parserel "+tok(s), "ref parse "+tok(s))
 	}
+	// every part at, just below and just above its length limit, together
+	for _, h := range []string{"", "h.com", "registry.example.com:5000", "[::1]:5000"} {
+		for _, rl := range []int{254, 255, 256} {
+			for _, tl := range []int{0, 127, 128, 129} {
+				for _, alg := range []struct {
+					name string
+					n    int
+				}{{"", 0}, {"sha256", 64}, {"sha384", 96}, {"sha512", 128}} {
+					r := strings.Repeat("r", rl-2) + "/x"
+					tg := strings.Repeat("t", tl)
+					d := ""
+					if alg.name != "" {
+						d = alg.name + ":" + strings.Repeat("a", alg.n)
+					}
+					s := r
+					if h != "" {
+						s = h + "/" + r
+					}
+					if tg != "" {
+						s += ":" + tg
+					}
+					if d != "" {
+						s += "@" + d
+					}
+					add("ref parse "+tok(s), "ref parserel "+tok(s), fmt.Sprintf("ref roundtrip %s %s %s %s", tok(h), tok(r), tok(tg), tok(d)), fmt.Sprintf("ref print %s %s %s %s", tok(h), tok(r), tok(tg), tok(d)))
+				}
+			}
+		}
+	}
 	n := 6000
 	if tier == "thorough" {
 		n = 150000
@@ -358,6 +461,10 @@ func (*c17) Oracle(c Case, impl []string) []Failure {
 		}
 		if got == "deprecated-alias-differs" {
 			fail("ref-alias", "aliases_agree", "ociregistry.IsValidX == ociref.IsValidX")
+			continue
+		}
+		if strings.HasPrefix(got, "router-differs:") {
+			fail("ref-"+got, "predicates_agree_with_router", "the routing layer accepts the string in that position exactly when the predicate does")
 			continue
 		}
 		switch t[1] {
